@@ -240,11 +240,8 @@ func checkEvaluate(text string, failAt int) error {
 						if s, ok := v.Val.(string); !ok || s != w.Lexeme {
 							note("evaluation call %d (production %d): value %d is %v, the body symbol is the token %s %q", step, i, j, v.Val, w.Kind, w.Lexeme)
 						}
-					} else {
-						tg, ok := v.Val.(*tag)
-						if !ok || tg.id != ids[k] {
-							note("evaluation call %d (production %d): value %d is %v, it must be the result of evaluation call %d", step, i, j, v.Val, ids[k])
-						}
+					} else if !isResultOf(v.Val, ids[k]) {
+						note("evaluation call %d (production %d): value %d is %v, it must be the result of evaluation call %d (%v)", step, i, j, v.Val, ids[k], resultOf(ids[k]))
 					}
 					wp := posOf(k)
 					switch {
@@ -262,7 +259,7 @@ func checkEvaluate(text string, failAt int) error {
 				failed = true
 				return nil, injected(failAt)
 			}
-			return &tag{c.id}, nil
+			return resultOf(c.id), nil
 		})
 	})
 	if perr != nil {
@@ -278,8 +275,7 @@ func checkEvaluate(text string, failAt int) error {
 		if step != len(calls) {
 			return fmt.Errorf("%d evaluation calls, the derivation has %d reductions", step, len(calls))
 		}
-		tg, ok := res.Val.(*tag)
-		if res == nil || !ok || tg.id != len(calls)-1 {
+		if res == nil || !isResultOf(res.Val, len(calls)-1) {
 			return fmt.Errorf("ParseAndEvaluate does not return the value of the last reduction")
 		}
 		return nil
@@ -294,6 +290,31 @@ func checkEvaluate(text string, failAt int) error {
 		return fmt.Errorf("evaluation call %d failed, but %d calls were made in total", failAt, step)
 	}
 	return nil
+}
+
+// resultOf is what the evaluation callback returns in its id-th call: mostly a tagged value, sometimes nil (a result
+// like any other: it must become the head's value, not be replaced by something else) or a plain integer.
+func resultOf(id int) any {
+	switch id % 5 {
+	case 2:
+		return nil
+	case 4:
+		return id
+	}
+	return &tag{id}
+}
+
+func isResultOf(v any, id int) bool {
+	switch w := resultOf(id).(type) {
+	case nil:
+		return v == nil
+	case int:
+		x, ok := v.(int)
+		return ok && x == w
+	default:
+		tg, ok := v.(*tag)
+		return ok && tg.id == id
+	}
 }
 
 func TestCallbacks(t *testing.T) {
